@@ -95,25 +95,36 @@ Bc(u, m) == IF Len(u) = m THEN u ELSE [i \in 1..m |-> u[1]]  \* scalar against v
 (* Leaves.  Polynomials are sequences of components, a component is a      *)
 (* sequence of monomials <<coefficient, <<exponents>>>>.                   *)
 
-PolyNames == {"s", "v", "u"}
+PolyNames == {"s", "v", "u", "w"}
 PolyOf(nm) ==
-  CASE nm = "s" -> << << <<1, <<2, 0>>>>, <<1, <<0, 1>>>> >> >>                        \* x0^2 + x1
+  CASE nm = "w" -> << << <<1, <<1, 0, 1>>>>, <<1, <<0, 1, 0>>>> >>,                     \* x0 x2 + x1   (3 inputs)
+                      << <<1, <<0, 2, 0>>>>, <<-1, <<0, 0, 1>>>> >> >>                  \* x1^2 - x2
+    [] nm = "s" -> << << <<1, <<2, 0>>>>, <<1, <<0, 1>>>> >> >>                        \* x0^2 + x1
     [] nm = "v" -> << << <<1, <<1, 1>>>> >>,                                            \* x0 x1
                       << <<1, <<1, 0>>>>, <<-1, <<0, 1>>>> >> >>                        \* x0 - x1
     [] nm = "u" -> << << <<1, <<3, 0>>>>, <<-1, <<0, 1>>>> >>,                          \* x0^3 - x1
                       << <<2, <<0, 2>>>> >>,                                            \* 2 x1^2
                       << <<1, <<1, 0>>>>, <<1, <<0, 1>>>>, <<-1, <<0, 0>>>> >> >>       \* x0 + x1 - 1
-LinNames == {"Ls", "L", "Lu"}
+(* linear leaves; "Lc" and "Mc" are MDOLinearFunctions built on SPARSE (scipy CSR)        *)
+(* coefficients, "M" and "Mc" (and the polynomial "w") have 3 inputs                        *)
+LinNames == {"Ls", "L", "Lu", "Lc", "M", "Mc"}
+SparseNames == {"Lc", "Mc"}
 LinA(nm) == CASE nm = "Ls" -> << <<1, -2>> >>
               [] nm = "L"  -> << <<1, 2>>, <<0, -1>> >>
               [] nm = "Lu" -> << <<1, 0>>, <<2, -1>>, <<-1, 1>> >>
+              [] nm = "Lc" -> << <<2, 0>>, <<-1, 1>> >>
+              [] nm = "M"  -> << <<1, 2, -1>>, <<0, -1, 2>> >>
+              [] nm = "Mc" -> << <<1, 0, 2>>, <<-2, 1, 0>> >>
 LinB(nm) == CASE nm = "Ls" -> <<3>> [] nm = "L" -> <<1, 2>> [] nm = "Lu" -> <<0, 1, -2>>
+              [] nm = "Lc" -> <<1, -1>> [] nm = "M" -> <<1, -2>> [] nm = "Mc" -> <<0, 3>>
+LeafN(nm) == IF nm \in {"w", "M", "Mc"} THEN 3 ELSE 2
 QuadA == << <<1, 2>>, <<0, -1>> >>        \* Q(x) = x'Ax + b.x + c   (MDOQuadraticFunction)
 QuadB == <<1, -1>>
 QuadC == 3
 LeafNames == PolyNames \cup LinNames \cup {"Q"}
 LeafTable == [polys |-> [nm \in PolyNames |-> PolyOf(nm)],
               lins |-> [nm \in LinNames |-> <<LinA(nm), LinB(nm)>>],
+              sparse |-> SparseNames,
               quad |-> <<QuadA, QuadB, QuadC>>]
 
 MonoVal(e, x) == DProd([i \in 1..Len(e) |-> DPow(x[i], e[i])])
@@ -129,9 +140,15 @@ PGrad(comp, x) == [i \in 1..Len(x) |->
 
 SubSeqOf(p, a, b) == [i \in 1..(b - a + 1) |-> p[a + i - 1]]
 MatOfPar(p) == [r \in 1..p[1] |-> [c \in 1..p[2] |-> p[2 + (r - 1) * p[2] + c]]]
-Insert(x, idx, val) == [i \in 1..(Len(x) + 1) |->
-                          IF i < idx THEN x[i] ELSE IF i = idx THEN val ELSE x[i - 1]]
-DropCol(row, idx) == [i \in 1..(Len(row) - 1) |-> IF i < idx THEN row[i] ELSE row[i + 1]]
+(* restriction: p = <<k, i_1..i_k, v_1..v_k>>: the inputs i_j (0-based, in ANY order) are frozen at v_j *)
+FrozenSet(p) == {p[1 + j] + 1 : j \in 1..p[1]}
+FrozenVal(p, i) == p[1 + p[1] + (CHOOSE j \in 1..p[1] : p[1 + j] + 1 = i)]
+Active(n, p) == SelectSeq([i \in 1..n |-> i], LAMBDA i : i \notin FrozenSet(p))   \* increasing
+(* the point of the n = Len(x) + k inputs completed with the frozen values *)
+Complete(x, p) == [i \in 1..(Len(x) + p[1]) |->
+                     IF i \in FrozenSet(p) THEN DI(FrozenVal(p, i))
+                     ELSE x[Cardinality({a \in 1..i : a \notin FrozenSet(p)})]]
+ActiveCols(row, p) == LET act == Active(Len(row), p) IN [c \in 1..Len(act) |-> row[act[c]]]
 
 FFOps == {"add", "sub", "mul", "div"}            \* function (op) function
 FCOps == {"addc", "subc", "mulc", "divc", "offc"} \* function (op) number; offc = f.offset(number)
@@ -151,11 +168,12 @@ AggSel(p, d) == IF p[2] = 0 THEN [i \in 1..d |-> i] ELSE [i \in 1..p[2] |-> p[2 
 RECURSIVE Ty(_)
 Ty(t) ==
   LET op == t[1]  a == t[2]  p == t[3] IN
-  CASE op \in PolyNames -> [n |-> 2, d |-> Len(PolyOf(op)), kind |-> "gen", norm |-> "no"]
-    [] op \in LinNames  -> [n |-> 2, d |-> Len(LinA(op)), kind |-> "lin", norm |-> "no"]
-    [] op = "Q"         -> [n |-> 2, d |-> 1, kind |-> "gen", norm |-> "no"]
+  CASE op \in PolyNames -> [n |-> LeafN(op), d |-> Len(PolyOf(op)), kind |-> "gen", norm |-> "no", sp |-> FALSE]
+    [] op \in LinNames  -> [n |-> LeafN(op), d |-> Len(LinA(op)), kind |-> "lin", norm |-> "no",
+                            sp |-> op \in SparseNames]
+    [] op = "Q"         -> [n |-> 2, d |-> 1, kind |-> "gen", norm |-> "no", sp |-> FALSE]
     [] op \in FFOps     -> LET ta == Ty(a[1]) tb == Ty(a[2]) IN
-                           [n |-> ta.n, d |-> Max2(ta.d, tb.d), kind |-> "gen", norm |-> ta.norm]
+                           [n |-> ta.n, d |-> Max2(ta.d, tb.d), kind |-> "gen", norm |-> ta.norm, sp |-> FALSE]
     [] op \in (FCOps \cup FAOps) \ {"offc", "offa"} -> [Ty(a[1]) EXCEPT !.kind = "gen"]
     [] op \in {"neg", "offc", "offa"} ->
            LET ta == Ty(a[1]) IN
@@ -163,25 +181,25 @@ Ty(t) ==
            THEN [ta EXCEPT !.norm = IF ta.norm = "no" THEN "no" ELSE "amb"]
            ELSE ta
     [] op \in {"restr", "rrestr"} -> LET ta == Ty(a[1]) IN
-                           [n |-> ta.n - 1, d |-> ta.d, kind |-> "gen",
-                            norm |-> IF ta.norm = "no" THEN "no" ELSE "amb"]
+                           [n |-> ta.n - p[1], d |-> ta.d, kind |-> "gen",
+                            norm |-> IF ta.norm = "no" THEN "no" ELSE "amb", sp |-> ta.sp]
     [] op = "lrestr"    -> LET ta == Ty(a[1]) IN
-                           [n |-> ta.n - 1, d |-> ta.d, kind |-> "lin",
-                            norm |-> IF ta.norm = "no" THEN "no" ELSE "amb"]
+                           [n |-> ta.n - p[1], d |-> ta.d, kind |-> "lin",
+                            norm |-> IF ta.norm = "no" THEN "no" ELSE "amb", sp |-> ta.sp]
     [] op = "lincomp"   -> LET ta == Ty(a[1]) IN
                            [n |-> p[2], d |-> ta.d, kind |-> "gen",
-                            norm |-> IF ta.norm = "no" THEN "no" ELSE "amb"]
+                            norm |-> IF ta.norm = "no" THEN "no" ELSE "amb", sp |-> FALSE]
     [] op = "concat"    -> LET ta == Ty(a[1]) tb == Ty(a[2]) IN
                            [n |-> ta.n, d |-> ta.d + tb.d, kind |-> "gen",
-                            norm |-> IF ta.norm = "no" /\ tb.norm = "no" THEN "no" ELSE "amb"]
+                            norm |-> IF ta.norm = "no" /\ tb.norm = "no" THEN "no" ELSE "amb", sp |-> FALSE]
     [] op = "normalize" -> [Ty(a[1]) EXCEPT !.norm = "yes"]
     [] op = "taylor1"   -> LET ta == Ty(a[1]) IN
-                           [ta EXCEPT !.kind = "lin", !.norm = IF ta.norm = "no" THEN "no" ELSE "amb"]
+                           [ta EXCEPT !.kind = "lin", !.sp = FALSE, !.norm = IF ta.norm = "no" THEN "no" ELSE "amb"]
     [] op \in {"taylor2", "cvx"} -> LET ta == Ty(a[1]) IN
                            [ta EXCEPT !.kind = "gen", !.norm = IF ta.norm = "no" THEN "no" ELSE "amb"]
     [] op \in AggOps    -> LET ta == Ty(a[1]) IN
                            [n |-> ta.n, d |-> 1, kind |-> "gen",
-                            norm |-> IF ta.norm = "no" THEN "no" ELSE "amb"]
+                            norm |-> IF ta.norm = "no" THEN "no" ELSE "amb", sp |-> FALSE]
 
 RECURSIVE Depth(_)
 Depth(t) == IF Len(t[2]) = 0 THEN 0
@@ -283,8 +301,9 @@ RuleTaylor2(e, p, x) ==                  \* p = xhat \o H (symmetric, row-major)
 
 RuleNeg(e) == [v |-> VNeg(e.v), j |-> MNeg(e.j)]
 (* restriction (FunctionRestriction "restr", RestrictedFunction "rrestr", MDOLinearFunction.restrict *)
-(* "lrestr"): p = <<frozen index (0-based), frozen value>>; e = f at the completed point         *)
-RuleRestr(e, p) == [v |-> e.v, j |-> [r \in 1..Len(e.j) |-> DropCol(e.j[r], p[1] + 1)]]
+(* "lrestr"): p = <<k, frozen indices (0-based, any order), frozen values>>; e = f at the         *)
+(* completed point; the Jacobian keeps the columns of the active inputs                           *)
+RuleRestr(e, p) == [v |-> e.v, j |-> [r \in 1..Len(e.j) |-> ActiveCols(e.j[r], p)]]
 (* x |-> f(Ax): value f(Ax), Jacobian f'(Ax) A; e = f at Ax *)
 RuleLinComp(e, A) == [v |-> e.v, j |-> MatMul(e.j, A)]
 RuleConcat(ea, eb) == [v |-> ea.v \o eb.v, j |-> ea.j \o eb.j]
@@ -305,7 +324,7 @@ E(t, x) ==
     [] op \in FCOps -> RuleFC(op, E(a[1], x), p)
     [] op \in FAOps -> RuleFA(op, E(a[1], x), p)
     [] op = "neg" -> RuleNeg(E(a[1], x))
-    [] op \in {"restr", "rrestr", "lrestr"} -> RuleRestr(E(a[1], Insert(x, p[1] + 1, DI(p[2]))), p)
+    [] op \in {"restr", "rrestr", "lrestr"} -> RuleRestr(E(a[1], Complete(x, p)), p)
     [] op = "lincomp" -> RuleLinComp(E(a[1], MatVec(DM(MatOfPar(p)), x)), DM(MatOfPar(p)))
     [] op = "concat" -> RuleConcat(E(a[1], x), E(a[2], x))
     [] op = "normalize" -> RuleNormalize(E(a[1], NormPoint(p, x)), p, Len(x))
@@ -317,7 +336,7 @@ E(t, x) ==
 (* The point at which the k-th subtree of t is observed when t is evaluated at x. *)
 ChildPoint(t, k, x) ==
   LET op == t[1]  p == t[3] IN
-  CASE op \in {"restr", "rrestr", "lrestr"} -> Insert(x, p[1] + 1, DI(p[2]))
+  CASE op \in {"restr", "rrestr", "lrestr"} -> Complete(x, p)
     [] op = "lincomp"   -> MatVec(DM(MatOfPar(p)), x)
     [] op = "normalize" -> [i \in 1..Len(x) |-> DAdd(DI(p[i]), DMul(DI(p[Len(x) + i]), x[i]))]
     [] OTHER -> x
@@ -383,8 +402,11 @@ Hess(n) == CASE n = 1 -> <<2>> [] n = 2 -> <<2, 1, 1, -2>> [] n = 3 -> <<2, 1, 0
 Space(n) == CASE n = 1 -> <<-1, 2>> [] n = 2 -> <<-1, 0, 2, 4>> [] n = 3 -> <<-1, 0, 1, 2, 4, 1>>
 IdxPars(d) == {<<0>>, <<1, d - 1>>, <<2, 1, 0>>}      \* all outputs, [d-1], [1, 0]
 Scales == {1, 2}
-RestrPars(n) == IF Wide THEN {<<i, c>> : i \in 0..(n - 1), c \in {2, -1}}
-                ELSE {<<0, 2>>, <<n - 1, -1>>}       \* <<frozen index, frozen value>>
+(* <<k, frozen indices, frozen values>>: one frozen input, and for >= 3 inputs two of them, *)
+(* given in increasing and in decreasing index order                                         *)
+RestrPars(n) == (IF Wide THEN {<<1, i, c>> : i \in 0..(n - 1), c \in {2, -1}}
+                 ELSE {<<1, 0, 2>>, <<1, n - 1, -1>>})
+                \cup (IF n >= 3 THEN {<<2, 0, 1, 2, -1>>, <<2, n - 1, 0, -1, 2>>} ELSE {})
 
 RECURSIVE HasAggMax(_)
 HasAggMax(t) == t[1] = "aggmax" \/ \E k \in 1..Len(t[2]) : HasAggMax(t[2][k])
@@ -394,7 +416,17 @@ HasAggMax(t) == t[1] = "aggmax" \/ \E k \in 1..Len(t[2]) : HasAggMax(t[2][k])
 (* probe how gemseo represents scalars (float / 1-element array), of which the property     *)
 (* does not speak.  For the same reason the second-order Taylor polynomial (scalar          *)
 (* functions only) is not applied over aggregate_max, which returns a 1-element array.      *)
-UnaryExt(a) ==
+(* Functions with a sparse Jacobian (MDOLinearFunction on CSR coefficients and what its own  *)
+(* methods return) are enumerated under these methods and under number operands only: the    *)
+(* generic operator makers compute with dense Jacobians.                                      *)
+SparseExt(a) ==
+  LET ty == Ty(a) IN
+  {Un("neg", a, <<>>)}
+  \cup {Un(o, a, <<c>>) : o \in FCOps, c \in Consts}
+  \cup (IF ty.kind = "lin" THEN {Un("lrestr", a, q) : q \in RestrPars(ty.n)} ELSE {})
+  \cup (IF ty.kind = "lin" /\ ty.norm = "no" THEN {Un("normalize", a, Space(ty.n))} ELSE {})
+
+DenseExt(a) ==
   LET ty == Ty(a) IN
   {Un("neg", a, <<>>)}
   \cup {Un(o, a, <<c>>) : o \in FCOps, c \in Consts}
@@ -408,22 +440,24 @@ UnaryExt(a) ==
   \cup {Un("cvx", a, XHatC(ty.n) \o m) : m \in Masks(ty.n)}
   \cup (IF ty.d >= 2 THEN {Un(o, a, <<sc>> \o q) : o \in AggOps, sc \in Scales, q \in IdxPars(ty.d)} ELSE {})
 
+UnaryExt(a) == IF Ty(a).sp THEN SparseExt(a) ELSE DenseExt(a)
+
 DimsAgree(ta, tb) == ta.d = tb.d \/ ta.d = 1 \/ tb.d = 1
 BinExt(a, b) ==
   LET ta == Ty(a)  tb == Ty(b) IN
-  IF ta.n # tb.n \/ ta.norm = "amb" \/ tb.norm = "amb" \/ ta.norm # tb.norm THEN {}
+  IF ta.n # tb.n \/ ta.norm = "amb" \/ tb.norm = "amb" \/ ta.norm # tb.norm \/ ta.sp \/ tb.sp THEN {}
   ELSE (IF DimsAgree(ta, tb) THEN {Bin(o, a, b) : o \in FFOps} ELSE {})
        \cup (IF ta.norm = "no" THEN {Bin("concat", a, b)} ELSE {})
 
 (* second operands of the binary operators: the leaves plus a few functions of 1 and 3 inputs *)
-Partners == Leaves \cup { Un("restr", Leaf("v"), <<0, 2>>), Un("lrestr", Leaf("Ls"), <<1, 2>>),
+Partners == Leaves \cup { Un("restr", Leaf("v"), <<1, 0, 2>>), Un("lrestr", Leaf("Ls"), <<1, 1, 2>>),
                           Un("lincomp", Leaf("s"), <<2, 3, 1, 0, 2, 0, 1, -1>>),
                           Un("normalize", Leaf("L"), Space(2)) }
 
 Ext(S) == UNION {UnaryExt(a) : a \in S}
           \cup UNION {BinExt(a, b) \cup BinExt(b, a) : a \in S, b \in Partners}
 
-OpNames == <<"s", "v", "u", "Ls", "L", "Lu", "Q", "add", "sub", "mul", "div", "addc", "subc", "mulc",
+OpNames == <<"w", "Lc", "M", "Mc", "s", "v", "u", "Ls", "L", "Lu", "Q", "add", "sub", "mul", "div", "addc", "subc", "mulc",
              "divc", "offc", "adda", "suba", "mula", "diva", "offa", "neg", "restr", "rrestr", "lrestr", "lincomp",
              "concat", "normalize", "taylor1", "taylor2", "cvx", "aggmax", "aggsq", "aggpos">>
 OpIdx(o) == CHOOSE i \in 1..Len(OpNames) : OpNames[i] = o
@@ -483,13 +517,23 @@ Reject ==
   /\ UNCHANGED <<tree, pt, obs, res>>
   /\ PrintT(<<"REJECT", tree>>)
 
-Next == Evaluate \/ Reject
+(* Building the same operation again over the same operands gives the same function (a     *)
+(* second normalize() of a linear function, a second restriction ...): the operands are what *)
+(* they were.                                                                                 *)
+Rebuild ==
+  /\ phase = "done"
+  /\ phase' = "rebuilt"
+  /\ res' = E(tree, DV(pt))
+  /\ UNCHANGED <<tree, pt, obs>>
+
+Next == Evaluate \/ Rebuild \/ Reject
 Spec == Init /\ [][Next]_vars
 
 -----------------------------------------------------------------------------
 (* Properties.                                                             *)
 
 NoOperandMutation == [][obs' = obs]_vars
+RebuildSame == [][phase' = "rebuilt" => res' = res]_vars
 
 Done == phase = "done"
 X == DV(pt)
@@ -509,7 +553,7 @@ ObsShapeOK == \A k \in 1..Len(obs) : Len(obs[k][3]) = Len(obs[k][4])
 RECURSIVE Deg(_)
 Deg(t) ==
   LET op == t[1]  a == t[2] IN
-  CASE op \in {"s", "v", "Q"} -> 2
+  CASE op \in {"s", "v", "Q", "w"} -> 2
     [] op = "u" -> 3
     [] op \in LinNames -> 1
     [] op \in {"add", "sub", "concat"} -> Max2(Deg(a[1]), Deg(a[2]))
